@@ -151,6 +151,14 @@ Definition ops : list op := [
        | Some o, Some sc, Some l => vbool (hyp_readb {| pf := zN p; pre := o; sec := sc; stuffing := zN st |} (zN pid) l)
        | _, _, _ => vbad end
      | _ => vbad end);
+  ("spec.hyp.interrupted", fun a => match a with
+     | [VI pa; VL pra; sa; VL ia; VI pb; VL prb; sb; VI stb; VI pid; VL ib] =>
+       match opts other_of pra, sec_of sa, opts item_of ia, opts other_of prb, sec_of sb, opts item_of ib with
+       | Some oa, Some sca, Some la, Some ob, Some scb, Some lb =>
+         vbool (hyp_interruptedb {| pf := zN pa; pre := oa; sec := sca; stuffing := 0 |}
+                                 {| pf := zN pb; pre := ob; sec := scb; stuffing := zN stb |} (zN pid) la lb)
+       | _, _, _, _, _, _ => vbad end
+     | _ => vbad end);
   ("spec.hyp.filter", fun a => match a with
      | [VI p; s; VI st; VI pid; VL its] =>
        match sec_of s, opts item_of its with
